@@ -315,4 +315,16 @@ theorem C05_release (L : Layout) (x : Sys) (hx : Reachable L x) (k : Key) (hk : 
     exact dropFailing_released k x.s x.s.active.reverse [] hs.inv.i (by simp) y hy
   · left; exact releaseTail_released _ k y hy
 
+/-! Non-vacuity: layout `A → B`; F (33) appears nowhere in it.  While A is held (B down) F is passed through
+as the only event of its step, and its release lifts exactly F; the release of A lifts only B, the output of the
+mapping that has A in its trigger. -/
+example :
+    let L : Layout := [⟨[30], [48], Repeat.normal, []⟩]
+    let s1 := (run L State.init [Event.pressed 30]).1
+    let s2 := (step L s1 (Event.pressed 33)).1
+    foreign L 33 = true ∧ (step L s1 (Event.pressed 33)).2.events = [Event.pressed 33] ∧
+    (step L s2 (Event.released 33)).2.events = [Event.released 33] ∧
+    (step L s2 (Event.released 30)).2.events = [Event.released 48] := by
+  decide
+
 end TmVerif
